@@ -547,6 +547,10 @@ func (x *Exec) applyContract(st *State, call *ast.CallExpr, key string, c *FuncC
 	for _, e := range c.Ensures {
 		st.assume(asTerm(x.evalSpec(envPost, e.E)), "ensures:"+short)
 	}
+	for _, e := range c.Defines {
+		st.assume(asTerm(x.evalSpec(envPost, e.E)), "defines:"+short)
+		x.eng.assume(fmt.Sprintf("%s: its effect is named by a spec function (defines %s): needs %s to be a deterministic function of the arguments that spec function takes (M2 + read frame)", key, e.Src, key))
+	}
 	if c.Pure {
 		if fo := x.eng.funcObjByKey(key); fo != nil {
 			x.assumeAbstraction(st, preSt, x.eng.fnConst(fo), sig, recv, args, results)
